@@ -443,3 +443,57 @@ def run(ctx):
         ctx.ob("R-C12.9", mt9, "watermarks-of-deleted-keyspaces-are-released", ok9,
                "maintenance drops the watermarks (and with them the handles) of deleted keyspaces" if ok9
                else "sealed journals keep a handle of a deleted keyspace in their watermarks: after the last user handle is dropped the keyspace's folder stays on disk until that journal is evicted or the database closes")
+
+    # ---- R-C12.10 one keyspace's maintenance never touches another keyspace's folder (shared: C16/C18 use the generic form)
+    owner_coherence(ctx, "R-C12.10")
+
+
+def _peel(tm):
+    while tm is not None and tm.k == "call" and A.is_transparent(tm.a[0]) and tm.a[1]:
+        tm = tm.a[1][0]
+    return tm
+
+
+def _owners(term):
+    """(attribute, keyspace-valued root K) for every K.<field> / Keyspace::path(K) mentioned in the term"""
+    out = []
+    for x in A.walk(term):
+        if x.k == "field" and x.a[1] in ("tree", "config", "id", "name", "is_deleted"):
+            out.append((x.a[1], _peel(x.a[0])))
+        if x.k == "call" and x.a[0] in ("keyspace::Keyspace::path", "keyspace::Keyspace::name") and x.a[1]:
+            out.append((x.a[0].rsplit("::", 1)[-1], _peel(x.a[1][0])))
+    return out
+
+
+def owner_coherence(ctx, rule):
+    """Version ids are small per-tree counters: collecting keyspace A's old versions in keyspace B's folder unlinks B's `v<id>`
+    files — possibly the one `current` points to, after which the database cannot be opened.  Generally: a call that operates
+    on K.tree and is also handed an attribute of a keyspace (its folder, its config / compaction strategy, id, name) gets the
+    attribute of the SAME keyspace K (same value site)."""
+    F = ctx.F
+    n = 0
+    for fid, fn in sorted(F.fns.items()):
+        og = None
+        for b, t in fn.calls():
+            if len(t["args"]) < 2:
+                continue
+            og = og or ctx.og(fn)
+            ow = [_owners(og.of_operand(a)) for a in t["args"]]
+            trees = [(i, k) for i, o in enumerate(ow) for f, k in o if f == "tree"]
+            others = [(i, f, k) for i, o in enumerate(ow) for f, k in o if f != "tree"]
+            for i, k in trees:
+                for j, f, k2 in others:
+                    if i == j or k is None or k2 is None:
+                        continue
+                    n += 1
+                    ctx.count_sites()
+                    same = A.same_value_site(k, k2) or A.tkey(k) == A.tkey(k2)
+                    leaf = A.cname(t).rsplit("::", 1)[-1]
+                    inst = "version-history-maintained-in-the-keyspaces-own-folder" if (leaf == "maintenance" and f == "path") else "tree-call-%s-uses-the-%s-of-the-same-keyspace" % (leaf, f)
+                    ctx.ob(rule, fn, inst, same,
+                           "%s(.. %s of the keyspace whose tree it operates on ..)" % (leaf, f) if same else
+                           "%s operates on the tree of %s but is handed the %s of %s: %s" % (
+                               leaf, A.tstr(k)[:50], f, A.tstr(k2)[:50],
+                               "another keyspace's version files (ids are per-tree counters and collide) are unlinked — possibly the version `current` points to, after which opening the database fails — and this keyspace's stale versions leak" if f == "path"
+                               else "one keyspace is maintained with another keyspace's settings"), fn.loc(b))
+    ctx.floor(rule, "calls on a keyspace's tree that also take a keyspace attribute", n, 2)
